@@ -736,6 +736,300 @@ def run_ws_family(report, drv, specs, tag="ws"):
         rl.perf_counter = saved_clock
 
 
+# ---------------------------------------------------------------------------------------------------------------
+# SEVERAL connections of one address at the same time, over a long life: the real websocket endpoint again.
+#
+# "n per interval" is a bound per client ADDRESS: how many connections the address holds open, when each of them was
+# opened, how long each has been silent and what other clients did meanwhile (every disconnect of anybody runs
+# cleanup()) are all immaterial.  The family above keeps one connection open at a time, so nothing in it depends on
+# whether simultaneous connections of one address are counted TOGETHER, nor on what a connection that outlives an
+# idle period and a cleanup() is counted against afterwards.  A scenario of this family is a timeline of steps
+#     open(conn, peer) / send(conn) / close(conn)          each at an integer time, times non-decreasing
+# played through web.create_app -> NostrAPI.on_websocket -> start_client with all the connections it names held open
+# concurrently on one event loop.  Two "resident" addresses hold up to three / two connections each, opened at
+# different moments and closed at others; "visitors" (other addresses) connect, send nothing or one message and leave.
+# The timeline is a series of episodes separated by gaps drawn around the rule interval (1, i/2, i-1, i, i+1, i+2,
+# 2i+3: most of them longer than the interval, i.e. every queue of the residents has gone stale); an episode shuffles
+# arrivals of further resident connections, visitors and departures, then each resident sends its allowance plus
+# 0..2 messages spread at random over whichever of its connections are open, visitors coming and going in between.
+# What each connection sees (handshake accepted or not, EOSE / OK true versus NOTICE rate-limited / OK false
+# rate-limited, connection ended by the relay = refused) is attributed to the PEER address of the connection and
+# judged by `oracle`: per address and rule, the sliding-window count of what was let through on ALL its connections
+# never exceeds n, and a refusal is justified by a full window.  Tie: the same messages keyed by the peer address, and
+# a cleanup() at every disconnect of an accepted connection, through the Lean model.
+# Sizes: nothing in the property mentions a number of connections; three at a time per address, a dozen over the life
+# of a scenario and idle periods of up to two intervals are chosen on general grounds (a browser with a few tabs
+# behind one address, a relay that stays up for hours).
+WSC_VISITORS = ["192.0.2.1", "192.0.2.2", "198.51.100.77", "203.0.113.201", "2001:db8:aa::1", "2001:db8:aa::2"]
+WSC_SCENARIOS = {"quick": 14, "thorough": 160}
+WSC_MAX_OPEN = (3, 2)  # simultaneous connections of the first / second resident address
+
+
+def gen_wsc_spec(rng):
+    """a JSON-able scenario: rule configuration and the timeline; the whole of it is kept in the replay (it is small)"""
+    cmd = rng.choice(["REQ", "REQ", "EVENT"])
+    window = rng.choice([60, 60, 3600])
+    long_name = rng.choice(INTERVAL_NAMES[window])
+    n = rng.choice([1, 2, 2, 3])
+    rule = "%d/%s" % (n, long_name)
+    if rng.random() < 0.25:  # a burst rule next to it
+        short = "%d/%s" % (rng.choice([2, 5]), rng.choice(INTERVAL_NAMES[1]))
+        rule = ",".join([short, rule] if rng.random() < 0.5 else [rule, short])
+    options = {"ip": {cmd: rule}}
+    if rng.random() < 0.3:  # connections are limited too (a refused handshake: the steps of that connection are skipped)
+        options["ip"]["ACCEPT"] = "%d/%s" % (rng.choice([3, 4, 6]), long_name)
+    residents = rng.sample(WS_PEERS, 2)
+    allowance = {a: n for a in residents}
+    u = rng.random()
+    if u < 0.3:  # one of the residents has an allowance of its own (same window length: one longest interval)
+        a = residents[0] if u < 0.2 else residents[1]
+        allowance[a] = rng.choice([1, 2, 4])
+        options[a] = {cmd: "%d/%s" % (allowance[a], long_name)}
+    if rng.random() < 0.25:  # a shared allowance nobody comes near: the global scope lives in the same table
+        options["global"] = {cmd: "1000/h"}
+
+    state = {"now": 1, "serial": 0}
+    steps = []
+    open_conns = {a: [] for a in residents}
+
+    def tick():
+        state["now"] += rng.choice([0, 0, 1])
+        return state["now"]
+
+    def do_open(peer):
+        state["serial"] += 1
+        name = "c%d" % state["serial"]
+        steps.append({"do": "open", "conn": name, "peer": peer, "t": tick()})
+        return name
+
+    def do_visit():
+        name = do_open(rng.choice(WSC_VISITORS))
+        for _ in range(rng.choice([0, 1, 1])):
+            steps.append({"do": "send", "conn": name, "t": tick()})
+        steps.append({"do": "close", "conn": name, "t": tick()})
+
+    for episode in range(rng.choice([3, 4, 5])):
+        if episode:
+            state["now"] += rng.choice([window + 1, window + 1, window + 2, 2 * window + 3, window, window - 1, window // 2, 1])
+        pre = []
+        for a, most in zip(residents, WSC_MAX_OPEN):
+            if len(open_conns[a]) < most and (not (episode or open_conns[residents[0]]) or rng.random() < 0.55):
+                pre.append(("open", a))
+        pre += [("visit", None)] * rng.choice([0, 1, 1, 2])
+        if episode and rng.random() < 0.3:
+            pre.append(("close", rng.choice(residents)))
+        rng.shuffle(pre)
+        for what, a in pre:
+            if what == "open":
+                open_conns[a].append(do_open(a))
+            elif what == "visit":
+                do_visit()
+            elif open_conns[a]:
+                name = open_conns[a].pop(rng.randrange(len(open_conns[a])))
+                steps.append({"do": "close", "conn": name, "t": tick()})
+        senders = [a for a in residents for _ in range(allowance[a] + rng.choice([0, 1, 2]))]
+        rng.shuffle(senders)
+        for a in senders:
+            if open_conns[a]:
+                steps.append({"do": "send", "conn": rng.choice(open_conns[a]), "t": tick()})
+                if rng.random() < 0.12:
+                    do_visit()
+        for _ in range(rng.choice([0, 0, 1])):
+            do_visit()
+    rest = [name for a in residents for name in open_conns[a]]
+    rng.shuffle(rest)
+    for name in rest:
+        steps.append({"do": "close", "conn": name, "t": tick()})
+    return {"options": options, "cmd": cmd, "steps": steps, "nonce": rng.getrandbits(32)}
+
+
+def wsc_verdict(sent, reply):
+    """False = let through, True = refused, None = not the answer to this message"""
+    if not isinstance(reply, list) or not reply:
+        return None
+    if reply[:2] == ["NOTICE", "rate-limited"]:
+        return True
+    if sent[0] == "REQ" and reply == ["EOSE", sent[1]]:
+        return False
+    if sent[0] == "EVENT" and reply[0] == "OK" and len(reply) >= 3 and reply[1] == sent[1]["id"]:
+        if reply[2] is True:
+            return False
+        if str(reply[3] if len(reply) > 3 else "").startswith("rate-limited"):
+            return True
+    return None
+
+
+def run_wsc(report, drv, relay, spec, tag):
+    import asyncio
+    import json
+    import falcon
+    import falcon.testing
+    from nostr_relay import web, rate_limiter as rl
+    from nostr_relay.config import Config
+    from aionostr.key import PrivateKey
+
+    options, cmd = spec["options"], spec["cmd"]
+    parsed = parsed_from_options(options)
+    clock = Clock()
+    rl.perf_counter = clock
+    Config.rate_limits = options
+    app = web.create_app(storage=relay.storage)
+    lim = ws_limiter_of(app)
+    sk = PrivateKey(bytes([18]) * 32)
+    serial = [0]
+
+    def frame():
+        serial[0] += 1
+        if cmd == "REQ":
+            return ["REQ", "s%d" % serial[0], {"authors": ["ee" * 32], "limit": 1}]
+        return ["EVENT", relay.signed_event(sk, kind=1, content="wsc %d %d" % (spec["nonce"], serial[0]),
+                                            created_at=1700000000 + serial[0])]
+
+    history = []  # (peer, command, t, refused) in the order the relay decided them
+    lines = [{"op": "rl.reset", "cfg": model_cfg(parsed)}]
+    trace = []  # what happened, step by step (goes into the replay)
+    conns = {}  # name -> {"peer", "cm", "ws", "open"}
+
+    def decided(peer, m, t, refused):
+        history.append((peer, m, t, refused))
+        lines.append({"op": "rl.limited", "addr": norm_addr(peer), "cmd": m, "now": t})
+
+    async def hang_up(c, t):
+        """end the connection from the client's side (no-op for the relay if it has ended it already) and wait until the
+        handler is through: start_client runs cleanup() on its way out"""
+        c["open"] = False
+        await c["cm"].__aexit__(None, None, None)
+        lines.append({"op": "rl.cleanup", "now": t})
+        report.count("wsc_disconnects")
+
+    async def play():
+        try:
+            for st in spec["steps"]:
+                t = clock.now = st["t"]
+                name = st["conn"]
+                if st["do"] == "open":
+                    peer = st["peer"]
+                    cm = falcon.testing.ASGIConductor(app).simulate_ws("/", remote_addr=peer)
+                    try:
+                        ws = await cm.__aenter__()
+                    except falcon.WebSocketDisconnected as ex:
+                        decided(peer, "ACCEPT", t, True)
+                        trace.append(["open", name, peer, t, "handshake refused", ex.code])
+                        report.count("wsc_handshakes_refused")
+                        continue
+                    decided(peer, "ACCEPT", t, False)
+                    conns[name] = {"peer": peer, "cm": cm, "ws": ws, "open": True}
+                    trace.append(["open", name, peer, t, "accepted"])
+                    report.count("wsc_connections")
+                    now_open = sum(1 for c in conns.values() if c["open"] and c["peer"] == peer)
+                    report.coverage["wsc_most_simultaneous_connections_of_one_address"] = max(
+                        report.coverage.get("wsc_most_simultaneous_connections_of_one_address", 0), now_open)
+                    continue
+                c = conns.get(name)
+                if c is None or not c["open"]:
+                    trace.append([st["do"], name, None, t, "skipped: connection is not open"])
+                    continue
+                if st["do"] == "close":
+                    await hang_up(c, t)
+                    trace.append(["close", name, c["peer"], t])
+                    continue
+                sent, reply, v = frame(), None, None
+                try:
+                    await c["ws"].send_text(json.dumps(sent))
+                    for _ in range(8):
+                        reply = await asyncio.wait_for(c["ws"].receive_json(), 20)
+                        v = wsc_verdict(sent, reply)
+                        if v is not None:
+                            break
+                    if v is None:
+                        raise common.MachineryBroken("websocket harness: no answer to %r (last frame %r)" % (sent[0], reply))
+                    decided(c["peer"], cmd, t, v)
+                    trace.append(["send", name, c["peer"], t, "refused" if v else "admitted"])
+                    if v is False and cmd == "REQ":  # as a client does; keeps the connection below the subscription limit
+                        await c["ws"].send_text(json.dumps(["CLOSE", sent[1]]))
+                except falcon.WebSocketDisconnected as ex:
+                    # the relay ended the connection instead of answering: nothing more gets through
+                    decided(c["peer"], cmd, t, True)
+                    trace.append(["send", name, c["peer"], t, "connection ended by the relay", ex.code])
+                    report.count("wsc_connections_ended_by_relay")
+                    await hang_up(c, t)
+                if sum(1 for o in conns.values() if o["open"] and o["peer"] == c["peer"]) > 1:
+                    report.count("wsc_messages_while_the_address_had_several_connections")
+        finally:
+            for c in conns.values():
+                if c["open"]:
+                    c["open"] = False
+                    try:
+                        await c["cm"].__aexit__(None, None, None)
+                    except Exception:  # noqa
+                        pass
+
+    try:
+        relay.run(asyncio.wait_for(play(), 600))
+    except common.MachineryBroken:
+        raise
+    except Exception as ex:
+        raise common.MachineryBroken("websocket harness failed (%s, after %r): %r" % (tag, trace[-1:], ex))
+    replay = {"options": options, "wsc": spec, "observed": trace}
+    model_out = drv.batch(lines)
+    decisions = [mo for ln, mo in zip(lines, model_out) if ln["op"] == "rl.limited"]
+    for i, (h, mo) in enumerate(zip(history, decisions)):
+        if mo != h[3]:
+            report.correspondence_break(
+                "web.NostrAPI.on_websocket -> start_client -> rate_limiter (decisions per peer address, several connections at a time)",
+                {"options": options, "wsc": spec, "message": list(h[:3]), "index": i, "observed": trace}, h[3], mo)
+            break
+    oracle(report, options, parsed, [], history, lim, clock, replay=replay,
+           note=" (address = the peer of the websocket connection, all its simultaneous connections counted together; "
+                "the timeline and what each connection saw are in the replay)")
+    # evidence: how often the situation the family is about occurred (an address sends on a connection that is older than
+    # a disconnect of somebody which in turn is later than an idle period of that address longer than the interval)
+    longest = max([i for rs in parsed["ip"].values() for (i, _) in rs]
+                  + [i for d in parsed["specific"].values() for rs in d.values() for (i, _) in rs])
+    opened, last_seen, idle_then_cleanup = {}, {}, {}
+    for ev in trace:
+        kind, name, peer, t = ev[0], ev[1], ev[2], ev[3]
+        if peer is None:
+            continue
+        if kind == "open":
+            opened[name] = t
+        if kind == "close":
+            for a, seen in last_seen.items():
+                if t - seen > longest:
+                    idle_then_cleanup[a] = t
+        if kind == "send":
+            if peer in idle_then_cleanup and opened.get(name, t) < idle_then_cleanup[peer]:
+                report.count("wsc_messages_on_a_connection_that_outlived_an_idle_period_and_a_cleanup")
+        if kind in ("open", "send"):
+            last_seen[peer] = t
+    report.case(("wsc", json.dumps(spec, sort_keys=True)), nontrivial=any(h[3] for h in history),
+                sample={"options": options, "websocket_timeline": trace[:12]})
+    report.count("wsc_scenarios")
+    report.count("wsc_messages", sum(1 for h in history if h[1] != "ACCEPT"))
+    report.count("wsc_refused", sum(1 for h in history if h[3]))
+    report.count("messages", len(history))
+    report.count("refused", sum(1 for h in history if h[3]))
+
+
+def run_wsc_family(report, drv, specs, tag="wsc"):
+    """one relay (real SQL storage) for all scenarios, a fresh app and limiter per scenario; the configuration object is
+    put back afterwards"""
+    from lib.proto import make_sql_relay
+    from nostr_relay.config import Config
+    from nostr_relay import rate_limiter as rl
+
+    saved_cfg, saved_clock = dict(Config.__dict__), rl.perf_counter
+    relay = make_sql_relay()
+    try:
+        for j, spec in enumerate(specs):
+            run_wsc(report, drv, relay, spec, "%s%d" % (tag, j))
+    finally:
+        relay.close()
+        Config.__dict__.clear()
+        Config.__dict__.update(saved_cfg)
+        rl.perf_counter = saved_clock
+
+
 def run(report, tier, seed):
     rng = random.Random(seed)
     drv = common.Driver()
@@ -752,7 +1046,12 @@ def run(report, tier, seed):
         "connections of three peer addresses inside one window, some with client-chosen X-Forwarded-For / Forwarded / X-Real-IP "
         "handshake headers naming other peers, addresses with rule sections of their own, strangers or non-addresses; what each "
         "client sees (handshake, EOSE / OK / NOTICE rate-limited, connection ended) is attributed to the PEER address and judged "
-        "by the same oracle and against the model's decisions for that address (distribution.ws_*)")
+        "by the same oracle and against the model's decisions for that address (distribution.ws_*)"
+        "; plus websocket timelines with SEVERAL simultaneous connections per address (up to three, opened and closed at different "
+        "moments), visitors of other addresses connecting and leaving in between (every disconnect runs cleanup()) and idle gaps "
+        "around and beyond the rule interval between episodes in which each address sends its allowance plus 0..2 messages spread "
+        "over its open connections: decisions attributed to the peer address over all its connections, same oracle, same tie "
+        "(distribution.wsc_*)")
     report.assumptions += [
         "clock: perf_counter replaced by an integer clock constant during one is_limited call",
         "rules with n = 0 and empty rule strings are configuration errors outside the property's domain",
@@ -772,6 +1071,8 @@ def run(report, tier, seed):
         run_crowd(report, drv, gen_crowd_spec(rng, size), "crowd%d" % j)
     # which address the limiter is keyed by, through the real websocket endpoint (drawn after everything above)
     run_ws_family(report, drv, [gen_ws_spec(rng) for _ in range(WS_SCENARIOS["quick" if tier == "quick" else "thorough"])])
+    # several simultaneous connections per address over a long life (drawn after everything above)
+    run_wsc_family(report, drv, [gen_wsc_spec(rng) for _ in range(WSC_SCENARIOS["quick" if tier == "quick" else "thorough"])])
     # parse_option glue: interval names incl. malformed
     from nostr_relay import rate_limiter as rl
     lim = rl.RateLimiter({})
@@ -822,6 +1123,9 @@ def replay(report, path):
             continue
         if "ws" in r:
             run_ws_family(report, drv, [r["ws"]], "replay")
+            continue
+        if "wsc" in r:
+            run_wsc_family(report, drv, [r["wsc"]], "replay")
             continue
         options = r["options"]
         ops = [tuple(o) for o in r["ops"]]
